@@ -1,4 +1,5 @@
 import OasisModel.NodeDB.Crash
+import OasisModel.NodeDB.PathCrash
 import OasisProofs.Props.C06
 /-
 C07 — the node database survives a crash at any point of a write operation (PARTIAL).
@@ -156,38 +157,6 @@ theorem crash_observers_atomic (cl clv : Nat → List Nat) (p : PSt) (op : Op) (
       | mpSet nm v => exact absurd hd (by simp)
 
 /-! ### retry -/
-
-theorem at_writeAll (m : MV) (ks : List Nat) (w : Nat) (b : Bool) (k t : Nat) :
-    (m.writeAll ks w b).at k t = if k ∈ ks ∧ w = t then some b else m.at k t := by
-  induction ks generalizing m with
-  | nil => simp [MV.writeAll]
-  | cons a ks ih =>
-    simp only [MV.writeAll, List.foldl] at ih ⊢
-    rw [ih, at_write]
-    by_cases h1 : k ∈ ks ∧ w = t
-    · simp [h1]
-    · by_cases h2 : a = k ∧ w = t
-      · have : (k = a ∨ k ∈ ks) ∧ w = t := ⟨Or.inl h2.1.symm, h2.2⟩
-        simp [h1, h2, this]
-      · have : ¬((k = a ∨ k ∈ ks) ∧ w = t) := by
-          rintro ⟨h3 | h3, h4⟩
-          · exact h2 ⟨h3.symm, h4⟩
-          · exact h1 ⟨h3, h4⟩
-        simp [h1, h2, this]
-
-theorem get_of_at_eq (m m' : MV) (k : Nat) (h : ∀ t, m'.at k t = m.at k t) (t : Nat) :
-    m'.get k t = m.get k t := by
-  induction t with
-  | zero => simp [MV.get, h]
-  | succ t ih => simp [MV.get, h, ih]
-
-/-- Writing the same batch twice reads like writing it once. -/
-theorem get_writeAll_idem (m : MV) (ks : List Nat) (w : Nat) (b : Bool) (k t : Nat) :
-    ((m.writeAll ks w b).writeAll ks w b).get k t = (m.writeAll ks w b).get k t := by
-  apply get_of_at_eq
-  intro t'
-  rw [at_writeAll, at_writeAll]
-  split <;> rfl
 
 /-- Whether an operation is refused, and what a Commit / Finalize writes, depends only on the
 metadata, not on the data keys a crashed first attempt already flushed. -/
@@ -459,6 +428,204 @@ theorem plan_names (cl clv : Nat → List Nat) (s : St) (op : Op) :
   · rename_i h; simp [badgerNames, h]
   · rename_i h
     cases op <;> simp [badgerNames, h, Durable.name]
+
+/-! ## pathbadger: write plans, crash prefixes, the lost repeated restore -/
+section PathBadgerCrash
+open PathBadger PathCrash OasisProofs.PathBadgerH
+
+/-- The full plan of a pathbadger Commit / Finalize / Prune is the uninterrupted operation (the
+ghost key set aside). -/
+theorem path_plan_complete_commit (s : PathBadger.St) (old new : Root) (b : PathBadger.Batch) :
+    PathCrash.applyAll s (planCommit s old new b) = { PathBadger.commitSt s old new b with uses := s.uses } := by
+  unfold planCommit PathCrash.applyAll PathBadger.commitSt
+  by_cases h0 : (nextSeqOf s new.ver old.typ == 0) = true
+  · simp [List.foldl, PathCrash.applyStep, h0]
+  · simp [List.foldl, PathCrash.applyStep, h0, finWriteAll]
+
+theorem path_plan_complete_finalize (s : PathBadger.St) (v : Nat) (ch : List Root) :
+    PathCrash.applyAll s (planFinalize s v ch) = PathBadger.finalizeSt s v ch := by
+  unfold planFinalize PathCrash.applyAll PathBadger.finalizeSt
+  simp [List.foldl, PathCrash.applyStep]
+
+theorem path_plan_complete_prune (s : PathBadger.St) (v : Nat) :
+    PathCrash.applyAll s (planPrune s v) = PathBadger.pruneSt s v := by
+  unfold planPrune PathCrash.applyAll PathBadger.pruneSt
+  simp [List.foldl, PathCrash.applyStep]
+
+/-- The hook names crashdrv must record for a pathbadger operation (`Crash.pathbadgerNames`) are the
+names of the durable steps of its plan, in order, with the `0-before-writes` markers (which are
+not durable steps) in front of `NewBatch`'s and `Commit`'s / the operation's first write. -/
+theorem path_plan_names (s : PathBadger.St) (old new : Root) (b : PathBadger.Batch) (v : Nat) (ch : List Root) :
+    Crash.pathbadgerNames "commit" "ok" false =
+      ["pathbadger.newbatch.0-before-writes"] ++ ((planCommit s old new b).map PathCrash.Durable.name).take 1 ++
+      ["pathbadger.commit.0-before-writes"] ++ ((planCommit s old new b).map PathCrash.Durable.name).drop 1 ∧
+    Crash.pathbadgerNames "finalize" "ok" false =
+      "pathbadger.finalize.0-before-writes" :: (planFinalize s v ch).map PathCrash.Durable.name ∧
+    Crash.pathbadgerNames "prune" "ok" false =
+      "pathbadger.prune.0-before-writes" :: (planPrune s v).map PathCrash.Durable.name := by
+  refine ⟨rfl, rfl, rfl⟩
+
+/-- Two states agree on everything a reader of a version below `v` looks at. -/
+structure AgreeBelow (v : Nat) (s q : PathBadger.St) : Prop where
+  earliest : q.earliest = s.earliest
+  roots : ∀ u th, u < v → PathBadger.rootVal q u th = PathBadger.rootVal s u th
+  seqs : ∀ u th, u < v → PathBadger.seqOf q u th = PathBadger.seqOf s u th
+  pend : ∀ u, u < v → PathBadger.pendAt q u = PathBadger.pendAt s u
+  fin : ∀ k u, u < v → finGet q.fin k u = finGet s.fin k u
+
+theorem read_agree {v : Nat} {s q : PathBadger.St} (h : AgreeBelow v s q) (r : Root) (hr : r.ver < v) :
+    PathBadger.read q r = PathBadger.read s r := by
+  have hget : ∀ k, PathBadger.getNode q r k = PathBadger.getNode s r k := by
+    intro k
+    apply getNode_congr
+    · exact h.seqs r.ver _ hr
+    · unfold PathBadger.pendGet; rw [h.pend r.ver hr]
+    · exact h.fin _ _ hr
+  have hwalk : ∀ n ps, PathBadger.walk q r n ps = PathBadger.walk s r n ps := by
+    intro n
+    induction n with
+    | zero => intro ps; rfl
+    | succ n ih =>
+      intro ps
+      simp only [PathBadger.walk]
+      congr 1
+      funext acc p
+      rw [hget p.1]
+      cases PathBadger.getNode s r p.1 with
+      | none => rfl
+      | some val => simp only [ih val.kids]
+  unfold PathBadger.read
+  rw [h.earliest, h.roots r.ver _ hr]
+  cases PathBadger.rootVal s r.ver (r.typ, r.hash) with
+  | none => rfl
+  | some rv => simp only [hwalk]
+
+/-- A durable step writes only at or above version `v` (and leaves the window alone). -/
+def TouchesFrom (v : Nat) (base : PathBadger.St) : PathCrash.Durable → Prop
+  | .metaCommit _ _ ps _ e => e = base.earliest ∧ ∀ u, u < v → lookupD ps u [] = lookupD base.pendSeq u []
+  | .metaFlush _ _ pe => ∀ e ∈ pe, v ≤ e.1
+  | .dataFlush _ ts _ rw => v ≤ ts ∧ ∀ e ∈ rw, v ≤ e.1.1
+
+theorem agree_step {v : Nat} {s q : PathBadger.St} (h : AgreeBelow v s q) (d : PathCrash.Durable)
+    (hd : TouchesFrom v s d) : AgreeBelow v s (PathCrash.applyStep q d) := by
+  cases d with
+  | metaCommit nm ns ps la e =>
+    obtain ⟨he, hps⟩ := hd
+    refine ⟨he, h.roots, ?_, h.pend, h.fin⟩
+    intro u th hu
+    show lookupD (lookupD ps u []) th 0 = _
+    rw [hps u hu]; rfl
+  | metaFlush nm up pe =>
+    refine ⟨h.earliest, h.roots, h.seqs, ?_, h.fin⟩
+    intro u hu
+    show lookupD (pe ++ q.pend) u [] = _
+    have : lookupD (pe ++ q.pend) u [] = lookupD q.pend u [] := by
+      have := lookupD_append_map_ne pe id q.pend u ([] : List ((Nat × Nat × PathBadger.Key) × PathBadger.NodeVal))
+        (fun x hx hc => by have := hd x hx; simp at hc; omega)
+      simpa using this
+    rw [this]; exact h.pend u hu
+  | dataFlush nm ts fw rw =>
+    obtain ⟨hts, hrw⟩ := hd
+    refine ⟨h.earliest, ?_, h.seqs, h.pend, ?_⟩
+    · intro u th hu
+      show lookupD (rw ++ q.rootNode) (u, th) none = _
+      have : lookupD (rw ++ q.rootNode) (u, th) none = lookupD q.rootNode (u, th) none := by
+        have := lookupD_append_map_ne rw id q.rootNode (u, th) (none : Option PathBadger.NodeVal)
+          (fun x hx hc => by have := hrw x hx; simp at hc; rw [hc] at this; simp at this; omega)
+        simpa using this
+      rw [this]; exact h.roots u th hu
+    · intro k u hu
+      show finGet (finWriteAll q.fin fw ts) k u = _
+      rw [finGet_writeAll_frame _ _ _ _ _ (Or.inl (by omega))]
+      exact h.fin k u hu
+
+theorem agree_prefix {v : Nat} {s : PathBadger.St} (plan : List PathCrash.Durable)
+    (hp : ∀ d ∈ plan, TouchesFrom v s d) (k : Nat) : AgreeBelow v s (PathCrash.applyPrefix k s plan) := by
+  have gen : ∀ (l : List PathCrash.Durable) (q : PathBadger.St), AgreeBelow v s q → (∀ d ∈ l, TouchesFrom v s d) →
+      AgreeBelow v s (PathCrash.applyAll q l) := by
+    intro l
+    induction l with
+    | nil => intro q hq _; exact hq
+    | cons d l ih =>
+      intro q hq hl
+      exact ih _ (agree_step hq d (hl d (by simp))) (fun x hx => hl x (List.mem_cons_of_mem _ hx))
+  exact gen _ s ⟨rfl, fun _ _ _ => rfl, fun _ _ _ => rfl, fun _ _ => rfl, fun _ _ _ => rfl⟩
+    (fun d hd => hp d (List.mem_of_mem_take hd))
+
+theorem lookupD_cons_lt {β : Type} (l : List (Nat × β)) (v : Nat) (a d : β) (u : Nat) (hu : u < v) :
+    lookupD ((v, a) :: l) u d = lookupD l u d := by
+  rw [lookupD_cons]; have : ¬ v = u := by omega
+  simp [this]
+
+/-- **Whatever prefix of a pathbadger Commit reached the disk, every root of an earlier version
+— in particular every finalized one — reads exactly as before.** -/
+theorem path_crash_commit_keeps_earlier_versions (s : PathBadger.St) (old new : Root) (b : PathBadger.Batch)
+    (k : Nat) (r : Root) (hr : r.ver < new.ver) :
+    PathBadger.read (PathCrash.applyPrefix k s (planCommit s old new b)) r = PathBadger.read s r := by
+  apply read_agree (agree_prefix _ ?_ k) r hr
+  intro d hd
+  simp only [planCommit, List.mem_cons, List.mem_singleton, List.not_mem_nil, or_false] at hd
+  rcases hd with rfl | rfl | rfl | rfl
+  · exact ⟨rfl, fun _ _ => rfl⟩
+  · refine ⟨rfl, fun u hu => ?_⟩
+    show lookupD (PathBadger.commitSt s old new b).pendSeq u [] = _
+    unfold PathBadger.commitSt
+    exact lookupD_cons_lt _ _ _ _ _ hu
+  · intro e he
+    split at he
+    · simp at he
+    · simp only [List.mem_singleton] at he; rw [he]; exact Nat.le_refl _
+  · refine ⟨Nat.le_refl _, fun e he => ?_⟩
+    simp only [List.mem_singleton] at he; rw [he]; exact Nat.le_refl _
+
+/-- **The same for Finalize** (when some version has been finalized before, so that the window
+does not start at this version). -/
+theorem path_crash_finalize_keeps_earlier_versions (s : PathBadger.St) (v : Nat) (ch : List Root)
+    (hl : s.last.isNone = false) (k : Nat) (r : Root) (hr : r.ver < v) :
+    PathBadger.read (PathCrash.applyPrefix k s (planFinalize s v ch)) r = PathBadger.read s r := by
+  apply read_agree (agree_prefix _ ?_ k) r hr
+  intro d hd
+  simp only [planFinalize, List.mem_cons, List.mem_singleton, List.not_mem_nil, or_false] at hd
+  rcases hd with rfl | rfl | rfl | rfl | rfl
+  · exact ⟨Nat.le_refl _, fun e he => by simp at he⟩
+  · intro e he; simp at he
+  · refine ⟨Nat.le_refl _, fun e he => ?_⟩
+    obtain ⟨th, _, rfl⟩ := List.mem_map.1 he
+    exact Nat.le_refl _
+  · intro e he
+    simp only [List.mem_singleton] at he; rw [he]; exact Nat.le_refl _
+  · refine ⟨?_, fun u hu => ?_⟩
+    · simp [PathBadger.finalizeSt, hl]
+    · show lookupD (PathBadger.finalizeSt s v ch).pendSeq u [] = _
+      unfold PathBadger.finalizeSt
+      exact lookupD_cons_lt _ _ _ _ _ hu
+
+/-- **The mechanism of the lost repeated restore (finding D10), on the model.** A restore of
+version 3 into an empty database with one chunk (root 30 with leaves under keys (3,1), (3,2)):
+with the sequence number 0 reserved by the first `StartMultipartInsert` the restored root reads
+back after `Finalize`; if a first attempt was started and aborted (or interrupted) before, the
+second `StartMultipartInsert` reserves sequence number 1, the chunk's nodes go to the pending key
+space, chunk commits record no updated nodes, so `Finalize` copies nothing and drops the pending
+space: it succeeds, reports the root as finalized — and the root is unreadable. -/
+theorem restore_after_aborted_restore_loses_nodes :
+    let puts : List (PathBadger.Key × PathBadger.NodeVal) := [((3, 1), ⟨1, []⟩), ((3, 2), ⟨2, []⟩)]
+    let root : PathBadger.NodeVal := ⟨30, [((3, 1), 1), ((3, 2), 2)]⟩
+    let r : Root := ⟨3, 0, 30⟩
+    -- first attempt completes
+    let a1 := startMultipart PathBadger.init 3
+    let a2 := chunkCommit a1 r (nextSeqOf PathBadger.init 3 0) puts root
+    let a3 := PathBadger.finalize a2 3 [r]
+    -- first attempt aborted before any chunk, second attempt completes
+    let b1 := abortEmptyMultipart (startMultipart PathBadger.init 3)
+    let b2 := startMultipart b1 3
+    let b3 := chunkCommit b2 r (nextSeqOf b1 3 0) puts root
+    let b4 := PathBadger.finalize b3 3 [r]
+    nextSeqOf PathBadger.init 3 0 = 0 ∧ a3.1 = .ok ∧ PathBadger.read a3.2 r = .ok ∧
+    nextSeqOf b1 3 0 = 1 ∧ b4.1 = .ok ∧ b4.2.last = some 3 ∧ PathBadger.hasRoot b4.2 r = true ∧
+    PathBadger.read b4.2 r = .notFound := by
+  decide
+
+end PathBadgerCrash
 
 /-! ### non-vacuity -/
 
